@@ -164,7 +164,7 @@ pub fn run(ctx: &Ctx) -> Report {
         &format!("streams[{}]", ctx.variant),
         "C03 streams decomposed by the harness into maximal left-to-right runs; RAMWR count <= sum ceil(len/cap) with batching, <= in-bounds pixels always; SPI transactions per burst bounded; non-trivial = a run longer than cap and >= 2 runs",
     );
-    run_generated(&mut sec, ctx.seed, ctx.cases(100_000, 2_500_000), ctx.workers, strategy_streams, check, sig);
+    run_generated(&mut sec, ctx.seed, ctx.cases(200_000, 3_000_000), ctx.workers, strategy_streams, check, sig);
     rep.sections.push(sec);
 
     let mut sec = Section::new(
@@ -248,8 +248,8 @@ pub fn run(ctx: &Ctx) -> Report {
         &format!("fills[{}]", ctx.variant),
         "C01 and C02 programs: fill_solid / fill_contiguous / clear use exactly one window set-up when the intersection is non-empty, at most one otherwise; SPI transaction bound",
     );
-    run_generated(&mut sec, ctx.seed ^ 20, ctx.cases(50_000, 1_200_000), ctx.workers, || c01::strategy(gen::ConfigMenu::all_transports(), 6), check, sig);
-    run_generated(&mut sec, ctx.seed ^ 21, ctx.cases(50_000, 1_200_000), ctx.workers, || c02::strategy(gen::ConfigMenu::all_transports(), 4), check, sig);
+    run_generated(&mut sec, ctx.seed ^ 20, ctx.cases(100_000, 1_500_000), ctx.workers, || c01::strategy(gen::ConfigMenu::all_transports(), 6), check, sig);
+    run_generated(&mut sec, ctx.seed ^ 21, ctx.cases(100_000, 1_500_000), ctx.workers, || c02::strategy(gen::ConfigMenu::all_transports(), 4), check, sig);
     rep.sections.push(sec);
     rep
 }
